@@ -97,6 +97,14 @@ def run (case _impl : String) : String :=
     | none => "bad-case"
   | ["conn", wc, ops] => if wc == "0" || wc == "1" then C02.runConn (C02.splitOps ops) else "bad-case"
   | ["conn", wc] => if wc == "0" || wc == "1" then C02.runConn [] else "bad-case"
+  | ["kax", cfg, n] =>
+    -- n requests in flight against a silent peer with keep-alive on: judged by the oracle only in this form
+    -- (`Props.C10.keepalive_silence_breaks`, `keepalive_exhausted_ids_breaks`); the `ka` form of the same schedule
+    -- carries the model's line (thorough tier)
+    match (cfg.splitOn "/").map String.toNat?, n.toNat? with
+    | [some i, some t], some n =>
+      if i == 0 || t == 0 || i > 60000 || t > 60000 || n > 40000 then "bad-case" else "kax"
+    | _, _ => "bad-case"
   | ["pool", cfg, script] => runPool cfg script
   | ["race", cfg, seed] =>
     -- multi-thread race of submissions with a connection reset: not deterministic, judged by the oracle only
